@@ -262,6 +262,35 @@ Theorem C07_burst_search_sound :
 Proof. exact @search_sound. Qed.
 Print Assumptions C07_burst_search_sound.
 
+(** ... and it misses nothing.  [explains ordered alive accept d s vb pend]
+    ([proofs/C07_Validator.v]): from model state [s] there is an interleaving of at most
+    [d] nodes -- at every node one of the pending actions that may come next ([picks]: the
+    first one if one goroutine issued them, otherwise any, starts in issue order) with its
+    observed result, or one label that some call can take ([enabled_of]) -- that ends with
+    nothing pending, no call able to move and the comparison with the observation passed,
+    and along which no call returned a result the observation does not contain.
+    A burst is rejected only if no such explanation exists (depth up to 2 * burst_fuel = 400;
+    a burst of four actions with five calls needs fewer than 60), and whatever the
+    label-by-label search returns is one. *)
+Theorem C07_burst_rejected_no_explanation : forall keys v ordered acts o d,
+  check_step keys v (mkBurst ordered acts o) = None -> d <= 2 * burst_fuel ->
+  ~ explains ordered (fun s2 => rets_possible (v_st v) s2 o)
+             (fun s2 vb1 => obs_match keys (v_st v) s2 vb1 (v_cb v) o) d (v_st v) (v_vb v) acts.
+Proof. exact check_step_burst_complete. Qed.
+Print Assumptions C07_burst_rejected_no_explanation.
+
+Theorem C07_burst_search_complete : forall {X} ordered alive (accept : st -> bij -> option X) d s vb pend,
+  explains ordered alive accept d s vb pend ->
+  forall fuel acc, d <= fuel -> exists r, search fuel single ordered alive accept s vb pend acc = Some r.
+Proof. exact @search_complete. Qed.
+Print Assumptions C07_burst_search_complete.
+
+Theorem C07_burst_search_explains : forall {X} ordered alive (accept : st -> bij -> option X) fuel s vb pend acc r,
+  search fuel single ordered alive accept s vb pend acc = Some r ->
+  exists d, d <= fuel /\ explains ordered alive accept d s vb pend.
+Proof. exact @search_explains. Qed.
+Print Assumptions C07_burst_search_explains.
+
 (** the burst "cancel call 0; Put; start call 1 for the new version" issued back-to-back while
     call 0 is parked: both ways call 0 can come back are accepted (through the closed
     channel: nil; through ctx.Done: the context's error -- its tear-down then finds a
